@@ -116,7 +116,10 @@ func (e *GNode) Facts() []Fact {
 	}
 	cond := e.Ast.(ast.Expr)
 	if e.Tag != nil {
-		return []Fact{{Expr: cond, Tag: e.Tag, Truth: e.Truth, Edge: e}}
+		// `switch tag { case K: }`: the tagged fact for the rules that look at switches, and the same knowledge as a plain
+		// comparison `tag == K` (holding in the clause, failing on the way past it) for the rules that look at comparisons
+		return []Fact{{Expr: cond, Tag: e.Tag, Truth: e.Truth, Edge: e},
+			{Expr: &ast.BinaryExpr{X: e.Tag, OpPos: cond.Pos(), Op: token.EQL, Y: cond}, Truth: e.Truth, Edge: e}}
 	}
 	var out []Fact
 	decompose(cond, e.Truth, e, &out)
